@@ -2,6 +2,7 @@ SPECIFICATION Spec
 CONSTANTS
   SurfSeq <- MC_SurfSeq
   Relief <- MC_Relief
+  Compressible = FALSE
   MaxSweep = 3
 INVARIANT WiresWellFormed
 INVARIANT OneFeedbackPerSurface
@@ -9,4 +10,5 @@ INVARIANT SingleDriver
 INVARIANT NoCrossSurface
 INVARIANT ReadsLatest
 INVARIANT SweepConsistent
+INVARIANT FramesSeparated
 CHECK_DEADLOCK FALSE
